@@ -229,6 +229,7 @@ func (cache *dirCache) retrieveFiles(target *core.BuildTarget, cacheDir string, 
 		return true, cache.retrieveCompressed(target, cacheDir)
 	}
 	for _, out := range outs {
+		verifhook.Point("dircache.retrieve.out")
 		realOut, err := cache.ensureRetrieveReady(target, out)
 		if err != nil {
 			return false, err
